@@ -11,7 +11,9 @@
  *   - family 2: channels = (n+1)^2 + 2j (n = 0..14, j = 0/1), ACN channel k on mono stream k, the optional
  *     non-diegetic stereo pair last in the channel order on the single coupled stream;
  *   - family 255: one mono stream per channel, identity mapping.
- * Finite-complete: channels, family, Fs, application symbolic; the three fill loops are unwound 256 times. */
+ * Finite-complete: channels, Fs, application symbolic; one group per mapping family (0, 1, 2, 255: the family is a constant
+ * of the group, so that the other families' fill loops are pruned) and one for every other int family value; the fill loops
+ * are unwound to completion (256) with unwinding assertions on. */
 #include "config.h"
 #include "common.h"
 #include <stdarg.h>
@@ -57,6 +59,11 @@ void h_surround_layout(void)
    int channels = nondet_int(), family = nondet_int(), app = nondet_int(); opus_int32 Fs = nondet_int();
    int streams = nondet_int(), coupled = nondet_int(), ret, i, j, q; unsigned char vq; opus_int32 size;
    int legal_ambi = 0, n, acn = 0, nd = 0;
+#ifdef VERIF_FAMILY
+   family = VERIF_FAMILY;
+#else
+   __CPROVER_assume(family != 0 && family != 1 && family != 2 && family != 255);
+#endif
    q = nondet_int(); __CPROVER_assume(0 <= q && q < 256); vq = mapping[q];
    st.lfe_stream = nondet_int();
    g_called = 0; g_impl_ret = nondet_int();
@@ -75,13 +82,17 @@ void h_surround_layout(void)
       return;
    }
    if (!(family == 0 && channels <= 2) && !(family == 1 && channels <= 8) && family != 255 && !(family == 2 && legal_ambi)) {
+#if !defined(VERIF_FAMILY) || VERIF_FAMILY != 255
       CANARY("unsupported family / channel count");
+#endif
       __CPROVER_assert(ret < 0 && g_called == 0, "unsupported mapping family / channel count combination is rejected at creation");
       __CPROVER_assert(family == 2 ? ret == OPUS_BAD_ARG : ret == OPUS_UNIMPLEMENTED, "documented error: OPUS_UNIMPLEMENTED (family 0 beyond stereo, family 1 beyond 8 channels, unknown family), OPUS_BAD_ARG (family 2 with a channel count that is not (n+1)^2 [+2])");
       __CPROVER_assert(size == 0, "the size query reports 0 for a combination that creation rejects");
       return;
    }
+#ifdef VERIF_FAMILY
    CANARY("supported layout");
+#endif
    __CPROVER_assert(g_called == 1 && ret == g_impl_ret, "a supported combination reaches the common initialiser exactly once and its result is returned");
    __CPROVER_assert(g_st == &st && g_Fs == Fs && g_app == app && g_channels == channels && g_mapping == mapping && g_streams == streams && g_coupled == coupled,
                     "the common initialiser is handed the caller's rate, application, channel count and the reported streams / coupled streams / mapping");
@@ -109,7 +120,9 @@ void h_surround_layout(void)
    } else if (family == 255) {
       __CPROVER_assert(streams == channels && coupled == 0 && mapping[i] == i && g_lfe_at_call == -1, "family 255: one mono stream per channel, identity mapping, no LFE");
    } else {
+#if defined(VERIF_FAMILY) && VERIF_FAMILY == 2
       CANARY("ambisonics layout");
+#endif
       __CPROVER_assert(channels == acn + 2 * nd && streams == acn + nd && coupled == nd && g_lfe_at_call == -1,
                        "family 2 (RFC 8486): (n+1)^2 ambisonic channels as mono streams plus an optional non-diegetic stereo pair as the one coupled stream");
       __CPROVER_assert(i < acn ? mapping[i] == 2 * nd + i : mapping[i] == i - acn,
